@@ -74,6 +74,16 @@ CHECKS = [
         "Two names, formers listed in the spec header; copattern clauses, alias patterns and projection patterns are not generated.",
         "TLA+ resolution function model checked by TLC (alpha-invariance, boundary hygiene); spec->code replay comparing binder maps by source position; naming-strategy replay against the reference semantics",
         "DESIGN.md §4 C07"),
+    chk("C18", "model_checking",
+        "Accepted executables of the ZyCore enumeration (the largest programs plus a seeded sample; quick 160, thorough 6000) and every repository source the interpreter can run (160) are lowered by the real pipeline through stack IR, closure conversion, assembly, AMD64 (ELF and Mach-O) and LLVM under catch_unwind: any internal error or panic at any stage is a violation (LlvmUnsupportedLocal is the documented 'where supported' exception and is counted). The real SpsLowProgram and AssemblyProgram arenas are exported as JSON and TLC evaluates on them the invariants of spec/ZySps.tla, written from the property and not from the repository's validators: root closed, blocks closed except for their own label, labels unique, stack lets exactly at coproduct matches, single lexical owner, no holes; every jump/branch target, `next` link and symbol defined, branch tags distinct, product layouts with arity >= elements > 0 and one field class per word. Emitted AMD64 text is scanned for duplicate labels and undefined jump/call targets.",
+        "The high (pre-conversion) SPS program is not exported (only reachable through the pipeline's own check); assembly contexts (variables in scope per program point) are not re-validated; corpus exports are TLC-validated in the thorough tier only.",
+        "real lowering pipeline run under catch_unwind on TLC-enumerated and repository programs; code->spec TLC validation of exported IR arenas against TLA+ well-formedness predicates",
+        "DESIGN.md §4 C18"),
+    chk("C19", "translation_validation",
+        "For every lowered ZyCore program the REAL SpsLowProgram (public arena and root, including the 126 builtin closures) is loaded by spec/ZySps.tla and executed by TLC with the reference semantics of the first-order stack-passing language (one action per former: Jump, LetValue, ProductMatch, LetStack, LetArg, CoprodMatch by constructor index, CoCase by destructor index, OpenClosure, OpenContinuation, ExternCall in returning and control mode; environment reset at every jump); exit code, trap and output lines must equal what the real interpreter observed for the source program (which C02 compares with the CBPV reference semantics). A stuck SPS-low state is reported with its cause.",
+        "Programs of the generated core language only (host roles: int64 arithmetic/comparison/to_string, string append, write_line, exit); behaviour below SPS-low (assembly, AMD64, LLVM) is not executed - nothing to assemble or link with offline.",
+        "translation validation: the compiler's actual SPS-low output is executed by a TLA+ reference machine in TLC and compared with the interpreter per program",
+        "DESIGN.md §4 C19"),
 ]
 
 PENDING_REASON = "check not built yet (planned, see DESIGN.md)"
